@@ -1,5 +1,6 @@
 use std::fmt;
 use std::collections::HashSet;
+use std::rc::Rc;
 
 use super::ir::{AccessType, Meta, VariableName};
 
@@ -104,14 +105,17 @@ pub trait VariableMeta {
     }
 }
 
+// The sets are shared (not copied) when a node is cloned: a variable use keeps a
+// copy of its index expressions, whose nodes carry their own cached sets, so deep
+// copies would grow exponentially with the nesting depth of array accesses.
 #[derive(Default, Clone)]
 pub struct VariableKnowledge {
-    locals_read: Option<VariableUses>,
-    locals_written: Option<VariableUses>,
-    signals_read: Option<VariableUses>,
-    signals_written: Option<VariableUses>,
-    components_read: Option<VariableUses>,
-    components_written: Option<VariableUses>,
+    locals_read: Option<Rc<VariableUses>>,
+    locals_written: Option<Rc<VariableUses>>,
+    signals_read: Option<Rc<VariableUses>>,
+    signals_written: Option<Rc<VariableUses>>,
+    components_read: Option<Rc<VariableUses>>,
+    components_written: Option<Rc<VariableUses>>,
 }
 
 impl VariableKnowledge {
@@ -121,32 +125,32 @@ impl VariableKnowledge {
     }
 
     pub fn set_locals_read(&mut self, uses: &VariableUses) -> &mut VariableKnowledge {
-        self.locals_read = Some(uses.clone());
+        self.locals_read = Some(Rc::new(uses.clone()));
         self
     }
 
     pub fn set_locals_written(&mut self, uses: &VariableUses) -> &mut VariableKnowledge {
-        self.locals_written = Some(uses.clone());
+        self.locals_written = Some(Rc::new(uses.clone()));
         self
     }
 
     pub fn set_signals_read(&mut self, uses: &VariableUses) -> &mut VariableKnowledge {
-        self.signals_read = Some(uses.clone());
+        self.signals_read = Some(Rc::new(uses.clone()));
         self
     }
 
     pub fn set_signals_written(&mut self, uses: &VariableUses) -> &mut VariableKnowledge {
-        self.signals_written = Some(uses.clone());
+        self.signals_written = Some(Rc::new(uses.clone()));
         self
     }
 
     pub fn set_components_read(&mut self, uses: &VariableUses) -> &mut VariableKnowledge {
-        self.components_read = Some(uses.clone());
+        self.components_read = Some(Rc::new(uses.clone()));
         self
     }
 
     pub fn set_components_written(&mut self, uses: &VariableUses) -> &mut VariableKnowledge {
-        self.components_written = Some(uses.clone());
+        self.components_written = Some(Rc::new(uses.clone()));
         self
     }
 
